@@ -188,6 +188,13 @@ fn fval(i: Option<usize>) -> (f64, f64) {
 }
 
 const NCMD_CASES: u64 = 48;
+thread_local! {
+	static LONG_HORIZON: std::cell::Cell<Option<usize>> = const { std::cell::Cell::new(None) };
+}
+/// long runs at real-world rate pairs: the position is "obtained by accumulating rate x source-rate x dt" - over 48000
+/// output frames an accumulator of less than f64 precision drifts by more than the comparison tolerance
+const LONG_PAIRS: [(u32, u32); 4] = [(48000, 44100), (44100, 48000), (44100, 8000), (48000, 32000)];
+const LONG_CASES: u64 = 4;
 /// the sound through the whole engine: host track x internal buffer size
 const ENGINE_CASES: u64 = 4 * 3;
 const ENGINE_HOSTS: [&str; 4] = ["main track", "sub-track", "nested sub-track", "spatial sub-track (flat: no attenuation, strength 0)"];
@@ -220,7 +227,7 @@ impl Check for C04 {
 		Level::ModelChecking
 	}
 	fn num_cases(&self, tier: Tier) -> u64 {
-		Self::grid_cases(tier) + NCMD_CASES + ENGINE_CASES
+		Self::grid_cases(tier) + NCMD_CASES + ENGINE_CASES + LONG_CASES
 	}
 	fn describe(&self, tier: Tier, idx: u64) -> String {
 		let g = Self::grid_cases(tier);
@@ -230,6 +237,8 @@ impl Check for C04 {
 				"length {} reverse={} rate={} (device,sound) rate {:?}: every slice x every start x every valid loop region x chunk in {:?}",
 				len, reverse, rate, pair, CHUNKS
 			)
+		} else if idx >= g + NCMD_CASES + ENGINE_CASES {
+			format!("long run: 13-frame looping sound, (device, sound) rate {:?}, playback rate {{1, 0.9, -1}} x chunk {{1, 5}}, 48000 output frames against the f64 accumulation", LONG_PAIRS[(idx - g - NCMD_CASES - ENGINE_CASES) as usize])
 		} else if idx >= g + NCMD_CASES {
 			let e = idx - g - NCMD_CASES;
 			format!("engine pass: index-coded static sound (forward / reverse / looping, rate 1 and 2) played on the {} with internal buffer {}, under 5 device-callback patterns whose sizes are not multiples of the internal buffer", ENGINE_HOSTS[(e % 4) as usize], [2usize, 4, 5][(e / 4) as usize])
@@ -242,6 +251,8 @@ impl Check for C04 {
 		if idx < g {
 			let (len, reverse, rate, _) = Self::decode(tier, idx);
 			format!("len={} reverse={} rate={}", len, reverse, rate)
+		} else if idx >= g + NCMD_CASES + ENGINE_CASES {
+			"long run".into()
 		} else if idx >= g + NCMD_CASES {
 			format!("engine pass on the {}", ENGINE_HOSTS[((idx - g - NCMD_CASES) % 4) as usize])
 		} else {
@@ -249,12 +260,12 @@ impl Check for C04 {
 		}
 	}
 	fn rule(&self) -> String {
-		"full product: length 0..=8 (10 thorough) x every slice 0<=s<=e<=len x every start 0..=slice_len x {no loop} + every loop a<b<=slice_len x reverse x rate in {1,-1,2,0.5,-0.5,0.25,1.5} x (device,sound) rate in {(1,1),(2,1),(1,2),(3,2)} x chunk in {1,2,3,5}; index-coded frames, poison outside the slice; ideal transport + Hermite reference. Command family: seek_to / seek_by / set_loop_region at every callback index 0..=6 (pairs of commands in thorough). Re-slice family: every (first slice, second slice incl. open end) on 6 and 10 frames. Engine pass: the sound rendered through AudioManager + Renderer on 4 kinds of host track x internal buffer {2,4,5} x 5 callback patterns x {forward, reverse, loop} x rate {1,2}: the device output is the source frame sequence, bit-exactly. states = distinct (visited index, fraction, loop, direction) of the reference transport; non-trivial = runs that produce non-silent audio".into()
+		"full product: length 0..=8 (10 thorough) x every slice 0<=s<=e<=len x every start 0..=slice_len x {no loop} + every loop a<b<=slice_len x reverse x rate in {1,-1,2,0.5,-0.5,0.25,1.5} x (device,sound) rate in {(1,1),(2,1),(1,2),(3,2)} x chunk in {1,2,3,5}; index-coded frames, poison outside the slice; ideal transport + Hermite reference. Command family: seek_to / seek_by / set_loop_region at every callback index 0..=6 (pairs of commands in thorough). Re-slice family: every (first slice, second slice incl. open end) on 6 and 10 frames. Long runs: a 13-frame looping sound at (device, sound) rates (48000,44100), (44100,48000), (44100,8000), (48000,32000) x rate {1, 0.9, -1} x chunk {1,5} over 48000 output frames. Engine pass: the sound rendered through AudioManager + Renderer on 4 kinds of host track x internal buffer {2,4,5} x 5 callback patterns x {forward, reverse, loop} x rate {1,2}: the device output is the source frame sequence, bit-exactly. states = distinct (visited index, fraction, loop, direction) of the reference transport; non-trivial = runs that produce non-silent audio".into()
 	}
 	fn assumptions(&self) -> Vec<String> {
 		vec![
 			"only valid regions (start < end, inside the data) are enumerated here; invalid ones belong to C01".into(),
-			"a start position at or beyond the end of the slice is only required not to panic and not to read outside the slice".into(),
+			"a start position at or beyond the end of the slice is only required not to panic and not to read outside the slice, except with a loop region played forwards (one empty frame, then the loop)".into(),
 			"off-grid outputs are compared with an f64 Hermite evaluation within 2e-6; on-grid outputs (integer step) bit-exactly".into(),
 			"the end may be reported up to 3 source frames after the last frame (interpolator window)".into(),
 		]
@@ -264,6 +275,22 @@ impl Check for C04 {
 	}
 	fn run_case(&self, tier: Tier, idx: u64, ctx: &mut Ctx) {
 		let g = Self::grid_cases(tier);
+		if idx >= g + NCMD_CASES + ENGINE_CASES {
+			let pair = LONG_PAIRS[(idx - g - NCMD_CASES - ENGINE_CASES) as usize];
+			LONG_HORIZON.with(|h| h.set(Some(48000)));
+			for rate in [1.0, 0.9, -1.0] {
+				for chunk in [1usize, 5] {
+					let sc = Scene { len: 13, slice: None, start: 0, lp: Some((0, 13)), reverse: false, rate, pair, chunk };
+					ctx.evals += 1;
+					ctx.traces += 1;
+					if let Err(p) = catch(|| run_scene(&sc, ctx)) {
+						ctx.fail(format!("panic: {} :: long run", p), sc.desc());
+					}
+				}
+			}
+			LONG_HORIZON.with(|h| h.set(None));
+			return;
+		}
 		if idx >= g + NCMD_CASES {
 			let e = idx - g - NCMD_CASES;
 			if let Err(p) = catch(|| engine_pass((e % 4) as usize, [2usize, 4, 5][(e / 4) as usize], ctx)) {
@@ -328,12 +355,14 @@ impl Check for C04 {
 
 fn run_scene(sc: &Scene, ctx: &mut Ctx) {
 	let n = sc.n();
-	let lenient = sc.start >= n && n > 0; // start at the end: only "no panic, nothing outside the slice"
+	// start at the end: only "no panic, nothing outside the slice" - except with a loop region played forwards, where the
+	// ideal transport is well defined: one empty frame, then "wrapping from loop end straight to loop start"
+	let lenient = sc.start >= n && n > 0 && !(sc.lp.is_some() && !sc.reverse && sc.rate > 0.0);
 	let (mut sound, handle) = sc.build();
 	let info = MockInfoBuilder::new().build();
 	let dt = 1.0 / sc.pair.0 as f64;
 	let step = sc.step();
-	let horizon = if sc.lp.is_some() { 24 } else { 2 * sc.len + 8 };
+	let horizon = LONG_HORIZON.with(|h| h.get()).unwrap_or(if sc.lp.is_some() { 24 } else { 2 * sc.len + 8 });
 	let mut vis = if n == 0 || lenient {
 		None
 	} else {
